@@ -31,9 +31,28 @@ def seeded_table():
     return "\n".join(rows)
 
 
+def counts_table():
+    kf = json.loads((V / "known_findings.json").read_text())["findings"]
+    rows = ["| Id | audited theorems (last committed run) | axioms used | known findings | fixed |", "|---|---|---|---|---|"]
+    tot = 0
+    for i in range(1, 21):
+        pid = f"C{i:02d}"
+        ev = json.loads((V / "evidence" / f"{pid}.json").read_text())
+        cov = ev["coverage"]
+        ax = sorted({a for v in cov.get("theorems", {}).values() for a in v})
+        k = len([f for f in kf if f["property"] == pid and f.get("status", "known") == "known"])
+        fx = len([f for f in kf if f["property"] == pid and f.get("status") == "fixed"])
+        tot += cov["obligations"]
+        rows.append(f"| {pid} | {cov['discharged']} / {cov['obligations']} | {', '.join(ax) or 'none'} | {k} | {fx} |")
+    rows.append(f"| total | {tot} | | {len([f for f in kf if f.get('status', 'known') == 'known'])} | {len([f for f in kf if f.get('status') == 'fixed'])} |")
+    return "\n".join(rows)
+
+
 def main():
     p = V / "DESIGN.md"
     s = p.read_text()
+    if "<!-- BEGIN:counts -->" in s:
+        s = re.sub(r"<!-- BEGIN:counts -->.*?<!-- END:counts -->", "<!-- BEGIN:counts -->\n" + counts_table() + "\n<!-- END:counts -->", s, flags=re.S)
     s = re.sub(r"<!-- BEGIN:seeded -->.*?<!-- END:seeded -->", "<!-- BEGIN:seeded -->\n" + seeded_table() + "\n<!-- END:seeded -->", s, flags=re.S)
     p.write_text(s)
 
